@@ -167,16 +167,21 @@ func (l *Ledger) ACLOk(cl *mqtt.Client, topic string, write bool) (n int, ok boo
 	// of iterating through global rules.
 	if l.Users != nil {
 		if u, ok := l.Users[string(cl.Properties.Username)]; ok && len(u.ACL) > 0 {
+			// a matching filter that grants the access decides; the user is refused only if none
+			// of the matching filters does (the result must not depend on map iteration order)
+			matched := false
 			for filter, access := range u.ACL {
 				if filter.FilterMatches(topic) {
 					if !write && (access == ReadOnly || access == ReadWrite) {
 						return n, true
 					} else if write && (access == WriteOnly || access == ReadWrite) {
 						return n, true
-					} else {
-						return n, false
 					}
+					matched = true
 				}
+			}
+			if matched {
+				return n, false
 			}
 		}
 	}
